@@ -221,3 +221,12 @@ def run(ck):
     ck.attempt(rule_json_order, rid="C10.R7")
     from .c09 import rule_station_order_roundtrip
     ck.attempt(rule_station_order_roundtrip, rid="C10.R7")
+    # "outputs do not depend on the order of the mapping's entries / of registration": the schedule a scheduler hands in is made dense by
+    # station, never by the position of its entries (rules of C04 on Simulator._update_schedules; they report under their C04 ids)
+    from .c04 import rule_update_schedules
+    ck.attempt(rule_update_schedules)
+    # schedulers decide on the infrastructure description the interface builds: it must be the network's own matrix / limits / names,
+    # entry for entry - a description that drops, merges or re-orders constraints (say, "distinct rows only, first one wins") makes the
+    # outcome depend on the order in which constraints were registered (argument binding rule of C05; reports under its C05 ids)
+    from .c05 import rule_binding
+    ck.attempt(rule_binding)
